@@ -100,6 +100,8 @@ TagStep(var, n, ref, h) ==
             ELSE IF h[ref].fz THEN [heap |-> h, ref |-> ref, raised |-> TRUE]   \* frozenset has no update()
             ELSE [heap |-> [h EXCEPT ![ref].v = new], ref |-> IF new = {} THEN 0 ELSE ref, raised |-> FALSE]
 
+\* The walk takes the variant as its first argument: the state follows Deliver(Variant, ...); the export
+\* additionally evaluates Deliver("asCoded", ...) for the same call (operator Alt below).
 RECURSIVE Deliver(_, _, _, _, _), ToKids(_, _, _, _, _, _)
 
 \* _strict_map(methodcaller(...), targets): in list order; an exception ends the whole call
